@@ -746,10 +746,16 @@ class Cands:
             del cur[KEEP:]
 
     def report(self, run):
+        U = G["U"]
+        run.extra["witnesses"] = [
+            {"family": fam, "total": self.tot[fam], "world": world, "operands": [show(U.recipes[k]) for k in ks], "what": what}
+            for fam in sorted(self.tot)
+            for ks, what, world, extra in self.keep.get(fam, [])
+        ]
         for fam in sorted(self.tot):
             run.count("violations:" + fam, self.tot[fam])
             law = fam.split(":", 1)[0]
-            for ks, what, world, extra in self.keep[fam]:
+            for ks, what, world, extra in self.keep.get(fam, []):
                 key = f"{fam}:" + "|".join(kname(k) for k in ks) + ("" if world == "W0" else "@" + world)
                 run.violation(key, f"[{self.tot[fam]} cases in family {fam}] {what}", wit(law, ks, world, **extra))
 
@@ -893,7 +899,8 @@ def matrix_laws(run, cands, Ms):
                 G["pattern_samples"].append([show(U.recipes[ia]), show(U.recipes[ib])])
             continue
         try:
-            if bool(a == b):
+            # on rebuilt copies: a successful expr_equals overwrites the operands of its left argument
+            if bool(try_build(U.recipes[ia], G["worlds"][0]) == try_build(U.recipes[ib], G["worlds"][0])):
                 run.count("cmp0:distinguishable_but_ufl_==_is_blind_to_it")
         except FATAL:
             raise
@@ -1335,6 +1342,9 @@ def main(argv):
     U = setup(tier)
     n = U.n
     cands = Cands()
+    import time
+
+    tph = [time.time()]
     # ---- phase 1
     items = [(w.name, ia) for w in G["worlds"] for ia in range(n)]
     Ms = {w.name: np.zeros((n, n), dtype=np.int8) for w in G["worlds"]}
@@ -1349,16 +1359,23 @@ def main(argv):
         cands.add("refl", "equal-copy", (ia,), "a == a' (rebuilt copy) but cmp_expr(a, a') != 0")
     run.validated += n
     G["M0"] = Ms["W0"]
+    tph.append(time.time())
     # ---- phase 2
     matrix_laws(run, cands, Ms)
+    tph.append(time.time())
     # ---- phase 3
     for d in pmap(w_pairs, list(range(n)), seed=run.seed, chunks_per_proc=8):
         run.merge(d)
         cands.merge(d["cands"])
+    tph.append(time.time())
     # ---- phase 4
     for d in pmap(w_triples, list(range(len(U.R))), seed=run.seed, chunks_per_proc=8):
         run.merge(d)
         cands.merge(d["cands"])
+    tph.append(time.time())
+    run.extra["phase_wall_s(cmp matrices, matrix laws, pair constructors, triples on R)"] = [
+        round(b - a, 1) for a, b in zip(tph, tph[1:])
+    ]
     cands.report(run)
     # ---- bookkeeping
     run.evaluations = run.validated
